@@ -115,6 +115,15 @@ func (m *clientModel) onReply(tag int, ok, full bool) {
 					}
 				}
 			}
+			if m.kind[r] == "Version" {
+				// the session is reset: everything outstanding is aborted, its tags are free again
+				for x := 0; x < r; x++ {
+					if !m.answered[x] {
+						m.answered[x] = true
+						m.settle(x, false, false, true)
+					}
+				}
+			}
 			return
 		}
 	}
